@@ -75,7 +75,7 @@ def timed_out(o):
     return o == '99' or o.endswith('| 99')
 
 
-def rerun_slow(wd, cases, out, skip, tag, binary='harness', extra_env=None):
+def rerun_slow(wd, cases, out, skip, tag, binary='harness', extra_env=None, slow_ms=None):
     """Cases that did not answer within the deadline are run once more, alone and with a long deadline
     (gmars expands one FOR block per pass, at most 1000 passes: minutes, not a hang) - except those in
     `skip` (the executable model itself could not finish them: FOR counts beyond the bound of C05)."""
@@ -83,7 +83,7 @@ def rerun_slow(wd, cases, out, skip, tag, binary='harness', extra_env=None):
     if not slow:
         return out
     t0 = time.time()
-    again = run_impl(wd, [cases[i] for i in slow], tag=tag + '.slow', timeout_ms=SLOW_MS, binary=binary, extra_env=extra_env)
+    again = run_impl(wd, [cases[i] for i in slow], tag=tag + '.slow', timeout_ms=(slow_ms or SLOW_MS), binary=binary, extra_env=extra_env)
     for i, o in zip(slow, again):
         if not timed_out(o):
             SLOW_CASES.append(dict(case=cases[i][:200], seconds_for_the_batch=round(time.time() - t0, 1)))
